@@ -77,10 +77,10 @@ def gen_case(rng, n, fresh_only):
 def run(tier, seed, replay=None):
     ck = Check("C19", tier, seed)
     rng = random.Random(seed)
-    pr = check_proofs("C19")
+    pr = check_proofs("C19", coqchk=(tier == "thorough"))
     for t in pr["theorems"]:
         ck.oblige("theorem " + t, pr["ok"], pr["failed"] or "")
-    ck.assumptions = ["Print Assumptions: " + (", ".join(pr["assumptions"]) or "Closed under the global context (all theorems)")]
+    ck.assumptions = ["Print Assumptions: " + (", ".join(pr["assumptions"]) or "Closed under the global context (all theorems)")] + ([pr["coqchk"]] if pr.get("coqchk") else [])
     build_modelrun()
     build_harness("debug")
     if replay:
